@@ -1237,9 +1237,34 @@ impl Family for TlsErrors {
         "error-replies-inside-tls".into()
     }
     fn len(&self) -> u64 {
-        self.lens.len() as u64 * 6
+        self.lens.len() as u64 * 6 + 1
     }
     fn run(&self, idx: u64, st: &mut Stats) -> Result<(), Violation> {
+        if idx == self.lens.len() as u64 * 6 {
+            // the login itself is refused inside TLS: the client must decrypt exactly one ERR
+            // 1045 / 28000 carrying the id that follows its handshake response
+            st.nontrivial += 1;
+            st.bump("tls_error_replies");
+            AUTH_REJECT.with(|w| w.set(Some(4711)));
+            let o = run_tls(Some(pki().server_plain.clone()), false, vec![], usize::MAX);
+            AUTH_REJECT.with(|w| w.set(None));
+            let what = "a login refused inside TLS";
+            if let ConnResult::Panic(l, m) = &o.res {
+                return Err(Violation::new(panic_key(l, m), format!("{}: run_on panicked at {}: {}", what, l, m)));
+            }
+            if o.res != ConnResult::ErrMarker(4711) {
+                return Err(Violation::new("reject-result", format!("{}: run_on returned {}", what, o.res.short())));
+            }
+            if let Some(e) = &o.st.tls_error {
+                return Err(Violation::new("tls-error", format!("{}: {}", what, e)));
+            }
+            let pk = split_packets(&o.st.decrypted).map_err(|e| Violation::new("decrypted-replies", format!("{}: {}", what, e)))?;
+            let ok = pk.len() == 1 && pk[0].seq == 3 && parse_err(&o.st.decrypted[pk[0].start..pk[0].start + pk[0].len]).map(|e| e.code == 1045 && e.state == b"28000").unwrap_or(false);
+            if !ok {
+                return Err(Violation::new("reject-reply-lost", format!("{}: the client decrypted {} bytes in {} packets (first id {:?}), not one ERR 1045/28000 with sequence id 3", what, o.st.decrypted.len(), pk.len(), pk.first().map(|p| p.seq))));
+            }
+            return Ok(());
+        }
         let n = self.lens[(idx / 6) as usize];
         let site = idx % 3;
         // the callback that reported the error then returns Err itself: the client must still get
@@ -1291,6 +1316,9 @@ impl Family for TlsErrors {
         Ok(())
     }
     fn describe(&self, idx: u64) -> J {
+        if idx == self.lens.len() as u64 * 6 {
+            return json!({"site": "login refused"});
+        }
         let site = ["query refused", "error behind rows", "prepare refused"][(idx % 3) as usize];
         json!({"message_bytes": self.lens[(idx / 6) as usize], "site": site, "callback_then_returns_err": idx % 6 >= 3})
     }
